@@ -1001,7 +1001,12 @@ fn cmd_run(o: &Opts) -> i32 {
                 f.clause.name(),
                 f.observed
             );
-            println!("  words: {}", case.words_text());
+            let wt = case.words_text();
+            if wt.len() > 600 {
+                println!("  words: {} … ({} words; full script in the replay file)", &wt[..600], case.words.len());
+            } else {
+                println!("  words: {wt}");
+            }
             println!("  signature: {sig}");
             violation = Some(path);
             break;
@@ -1048,8 +1053,10 @@ fn cmd_run(o: &Opts) -> i32 {
                             ("identical_observations", J::B(same)),
                         ]));
                         if !same {
-                            eprintln!("simcheck: both build profiles satisfy the oracle but their digests differ: harness error\n  {mine}\n  {d}");
-                            return 2;
+                            // not a verdict on the property: both builds satisfy the oracle on every run.
+                            // It means the code under test is not a function of its inputs alone (hidden
+                            // state, or profile-dependent values that the oracle does not constrain).
+                            println!("note: both build profiles satisfy the oracle, but they did not observe identical bits on the same runs (see evidence.cross_profile)");
                         }
                     }
                     Some(1) => {
